@@ -6,7 +6,7 @@ CONSTANTS
   Containment = "root"
   TargetParse = "origin"
   Probe = "exists"
-  Exotic = {"n0", "fn", "nf", "dn", "xff", "long"}
+  Exotic = {"n0", "fn", "nf", "dn", "xff", "long", "ap", "apf", "ap5"}
   ExoticMaxLen = 3
 INVARIANT TypeOK
 INVARIANT Conforms
